@@ -282,4 +282,73 @@ theorem noSkip_of_gaps : ∀ (n : Nat) (ts : List K), ts.length = n →
 
 end cut
 
+
+section dict
+variable {K : Type} [Field K] [LinearOrder K] [IsStrictOrderedRing K] [DecidableEq K]
+
+/-- a repeated cut parameter does nothing the second time: the remainder's copy of it is re-mapped to 0 and skipped -/
+theorem cutSeg_cons_dup (seg : Seg K) (t : K) (ts : List K) : cutSeg seg (t :: t :: ts) = cutSeg seg (t :: ts) := by
+  by_cases h : t < (1 : K) / 100000000
+  · rw [cutSeg, if_pos h, cutSeg, if_pos h]
+  · rw [cutSeg, if_neg h]
+    conv_rhs => rw [cutSeg, if_neg h]
+    congr 1
+    have h0 : mapx t t < (1 : K) / 100000000 := by
+      unfold mapx; rw [sub_self, zero_div]; norm_num
+    simp only [List.map_cons]
+    rw [cutSeg, if_pos h0]
+
+/-- in a path whose segments are pairwise different the dict is a map per segment: the general model is the positional one (about
+    which the C03 theorems are stated) -/
+theorem cutsFor_nodup (segs : List (Seg K)) (cuts : List (List K)) (hlen : segs.length = cuts.length) (hnd : segs.Nodup) :
+    ∀ (i : Nat) (hi : i < segs.length), cutsFor segs cuts segs[i] = cuts[i]'(hlen ▸ hi) := by
+  induction segs generalizing cuts with
+  | nil => intro i hi; simp at hi
+  | cons s rest ih =>
+    cases cuts with
+    | nil => simp at hlen
+    | cons c cs =>
+      intro i hi
+      have hs : s ∉ rest := (List.nodup_cons.mp hnd).1
+      have hr := (List.nodup_cons.mp hnd).2
+      have hlen' : rest.length = cs.length := by simpa using hlen
+      cases i with
+      | zero =>
+        simp only [List.getElem_cons_zero, cutsFor, List.zip_cons_cons, List.filter_cons, if_true, decide_true, List.flatMap_cons]
+        have : ((rest.zip cs).filter fun e => decide (e.1 = s)) = [] := by
+          rw [List.filter_eq_nil_iff]
+          intro e he
+          simp only [decide_eq_true_eq]
+          intro h
+          exact hs (h ▸ (List.of_mem_zip he).1)
+        rw [this]; simp
+      | succ j =>
+        have hj : j < rest.length := by simpa using hi
+        have hne : s ≠ rest[j] := fun h => hs (h ▸ List.getElem_mem hj)
+        simp only [List.getElem_cons_succ, cutsFor, List.zip_cons_cons, List.filter_cons]
+        rw [if_neg (by simpa using hne)]
+        exact ih cs hlen' hr j hj
+
+theorem splitAtPointsDict_eq (segs : List (Seg K)) (cuts : List (List K)) (hlen : segs.length = cuts.length) (hnd : segs.Nodup) :
+    splitAtPointsDict segs cuts = splitAtPoints segs cuts := by
+  unfold splitAtPointsDict splitAtPoints
+  congr 1
+  apply List.ext_getElem
+  · simp [hlen]
+  · intro i h1 h2
+    simp only [List.getElem_map, List.getElem_zipWith]
+    have hi : i < segs.length := by simpa using h1
+    rw [cutsFor_nodup segs cuts hlen hnd i hi]
+
+/-- **F28**: a path running twice over the same quadratic (0,0) (2,4) (4,0), both occurrences to be cut at 1/2: the pinned walk cuts
+    the first occurrence only, the repaired one both -/
+theorem pinned_repeated_segment_counterexample :
+    splitAtPointsPinned [Seg.quad (⟨0, 0⟩ : Pt ℚ) ⟨2, 4⟩ ⟨4, 0⟩, Seg.quad ⟨0, 0⟩ ⟨2, 4⟩ ⟨4, 0⟩]
+        [(Seg.quad ⟨0, 0⟩ ⟨2, 4⟩ ⟨4, 0⟩, [1 / 2, 1 / 2])]
+      = [Seg.quad ⟨0, 0⟩ ⟨1, 2⟩ ⟨2, 2⟩, Seg.quad ⟨2, 2⟩ ⟨3, 2⟩ ⟨4, 0⟩, Seg.quad ⟨0, 0⟩ ⟨2, 4⟩ ⟨4, 0⟩]
+    ∧ splitAtPointsDict [Seg.quad (⟨0, 0⟩ : Pt ℚ) ⟨2, 4⟩ ⟨4, 0⟩, Seg.quad ⟨0, 0⟩ ⟨2, 4⟩ ⟨4, 0⟩] [[1 / 2], [1 / 2]]
+      = [Seg.quad ⟨0, 0⟩ ⟨1, 2⟩ ⟨2, 2⟩, Seg.quad ⟨2, 2⟩ ⟨3, 2⟩ ⟨4, 0⟩, Seg.quad ⟨0, 0⟩ ⟨1, 2⟩ ⟨2, 2⟩, Seg.quad ⟨2, 2⟩ ⟨3, 2⟩ ⟨4, 0⟩] := by
+  decide +kernel
+end dict
+
 end C03
